@@ -146,13 +146,15 @@ void run_case(ByteSource& s, CaseInfo& ci) {
           if (v[i].st == UNSPEC) break;
           bool construct = v[i].st == ABSENT;
           SU_vector &A = *v[j].v, &B = *v[k].v;
-          unsigned f = s.choose(9);
+          unsigned f = s.choose(11);
           bool mj = false;
 #define APPLY(E) do { if (construct) v[i].v.reset(new SU_vector(E)); else *v[i].v = (E); } while (0)
           switch (f) {
             case 0: APPLY(A + B); break; case 1: APPLY(A - B); break; case 2: APPLY(squids::iCommutator(A, B)); break; case 3: APPLY(squids::ACommutator(A, B)); break;
             case 4: APPLY(squids::ElementwiseOperation(Fn(), A, B)); break; case 5: APPLY(A * 1.5); break; case 6: APPLY(-A); break;
             case 7: if (i == j || k == j) break; mj = true; APPLY(std::move(A) + B); break;
+            case 9: { SU_vector c = B; APPLY(squids::ElementwiseProduct(A, std::move(c))); break; }   // storage of an rvalue second operand may be taken over
+            case 10: { SU_vector c = A, e = B; APPLY(squids::ElementwiseOperation(Fn(), std::move(c), std::move(e))); break; }
             default: { SU_vector h(v[j].d); for (int q = 1; q < v[j].d; q++) h[v[j].d * q + q] = 0.2 * q; APPLY(A.Evolve(h, 0.7)); break; }
           }
           bool ie = !construct && v[i].st == VALID && v[i].ext; int ib = v[i].buf;
